@@ -2,6 +2,7 @@ import NasimModel.Model.Wire
 import NasimModel.Model.LoaderWire
 import NasimModel.Model.GenWire
 import NasimModel.Model.Plan
+import NasimModel.Model.Bound
 /-!
 Driver: reads one request per line on stdin, answers one line per query on stdout.
 Scenario-definition lines produce no output. See `NasimModel/Model/Wire.lean` for tokens.
@@ -139,6 +140,8 @@ def handle (c : Cfg) (line : String) : Cfg × Option String :=
         (c, some (join out))
       | _, _ => (c, some "badq")
     | "POST15" => (c, some (NASim.Gen.postReply sc rest))
+    | "HOPS" => (c, some (join [(hops sc : Int), scoreUpperBound sc]))
+    | "MINSUB" => (c, some (join [(minSubnets sc : Int)]))
     | "SAT" =>
       let plan := findPlan sc
       (c, some (join ([bi (solvedBy sc plan), (plan.length : Int)] ++ plan.map (fun (i : Nat) => (i : Int)))))
